@@ -1,4 +1,4 @@
-CONSTANTS MaxLen = 3
+CONSTANTS MaxLen = 3 MaxLenK = 2 MaxLines = 3 MaxDepth = 4
 INIT MInit
 NEXT MNext
 INVARIANTS MonitorOK Emit
